@@ -9,13 +9,14 @@
 // Everything lives in `mod orc` so that its imports cannot clash with the ones of the source file.
 pub(crate) mod orc {
     #![allow(static_mut_refs, dead_code, unused_imports)]
-    use core::{
+    // re-exported: some source files (map_config.rs, fn_service.rs, ext.rs) do not import these themselves
+    pub(crate) use core::{
         future::Future,
         pin::Pin,
         task::{Context, Poll},
     };
 
-    use crate::{Service, ServiceFactory};
+    pub(crate) use crate::{Service, ServiceFactory};
 
     include!(concat!(env!("VERIF_KANI_DIR"), "/common_waker.rs"));
 
@@ -140,7 +141,7 @@ pub(crate) mod orc {
         type Output = Result<u8, u8>;
 
         fn poll(mut self: Pin<&mut Self>, cx: &mut Context<'_>) -> Poll<Result<u8, u8>> {
-            assert!(!self.done, "inner future polled after completion");
+            kani::assert(!self.done, "inner future polled after completion");
             let o = any_out();
             unsafe {
                 FUT_POLLS[self.id] += 1;
@@ -211,7 +212,7 @@ pub(crate) mod orc {
         type Output = Result<Leaf, u8>;
 
         fn poll(mut self: Pin<&mut Self>, cx: &mut Context<'_>) -> Poll<Result<Leaf, u8>> {
-            assert!(!self.done, "inner factory future polled after completion");
+            kani::assert(!self.done, "inner factory future polled after completion");
             let o = match any_out() {
                 Out::Ok(_) => Out::Ok(0),
                 o => o,
